@@ -2,6 +2,7 @@ package interp
 
 import (
 	"fmt"
+	"os"
 	"sort"
 	"strings"
 	"sync"
@@ -95,9 +96,17 @@ type Stats struct {
 }
 
 func NewWorker(p *Program, id int, solverKind string, lim Limits) (*Worker, error) {
-	s, err := sym.NewSolver(solverKind, 20000)
+	s, err := sym.NewSolver(solverKind, 10000)
 	if err != nil {
 		return nil, err
+	}
+	s.FallbackKinds = []string{"z3-new", "cvc5", "z3"}
+	s.FallbackTimeout = 60
+	if dir := os.Getenv("GOSYM_SMTLOG"); dir != "" {
+		f, err := os.Create(fmt.Sprintf("%s/w%d.smt2", dir, id))
+		if err == nil {
+			s.Log = f
+		}
 	}
 	return &Worker{P: p, C: sym.NewCtx(), S: s, ID: id, Lim: lim}, nil
 }
@@ -106,24 +115,26 @@ func (w *Worker) Close() { w.S.Close() }
 
 // InstanceResult summarises the exploration of one harness instance.
 type InstanceResult struct {
-	Harness      string
-	Params       map[string]int
-	Paths        int
-	Completed    int // paths that ran to the end of the harness
-	Steps        int64
-	Queries      int
-	SolverTime   float64
-	Unknowns     int
-	Inconclusive []string
-	Violations   []*Violation
-	Reached      map[string]int
-	Observations [][]string // per completed path when recording is on (concrete runs)
-	Exhausted    bool       // decision tree fully explored
-	SamplePath   []string
-	Funcs        map[string]bool
-	MaxDepth     int
-	Wall         float64
-	AssertsProved int
+	Harness         string
+	Params          map[string]int
+	Paths           int
+	Completed       int // paths that ran to the end of the harness
+	Steps           int64
+	Queries         int
+	SolverTime      float64
+	Unknowns        int
+	Fallbacks       int
+	FeasUnknown     int
+	Inconclusive    []string
+	Violations      []*Violation
+	Reached         map[string]int
+	Observations    [][]string // per completed path when recording is on (concrete runs)
+	Exhausted       bool       // decision tree fully explored
+	SamplePath      []string
+	Funcs           map[string]bool
+	MaxDepth        int
+	Wall            float64
+	AssertsProved   int
 	AssertsConcrete int
 }
 
@@ -144,19 +155,19 @@ type Run struct {
 	wg      sync.WaitGroup
 	preempt int
 
-	cursor   int
-	model    map[string]uint64
-	evalMemo map[*sym.Term]uint64
-	inputs   []inputSym
-	choices  []ChoiceVal
-	pcLen    int
-	steps    int64
-	tags     map[string]string
-	reached  map[string]int
-	observed []string
-	funcs    map[string]bool
-	mapOrder int // 0 insertion order, 1 all permutations
-	concrete map[string]uint64 // concrete-mode input values by label occurrence (translator validation)
+	cursor       int
+	model        map[string]uint64
+	evalMemo     map[*sym.Term]uint64
+	inputs       []inputSym
+	choices      []ChoiceVal
+	pcLen        int
+	steps        int64
+	tags         map[string]string
+	reached      map[string]int
+	observed     []string
+	funcs        map[string]bool
+	mapOrder     int               // 0 insertion order, 1 all permutations
+	concrete     map[string]uint64 // concrete-mode input values by label occurrence (translator validation)
 	concreteMode bool
 
 	startRetained      int
@@ -168,12 +179,12 @@ type Run struct {
 	chanCount          int
 	switches           int
 
-	outcome   string // "" running, ok, violation, infeasible, inconclusive
-	violation *Violation
-	inconc    string
-	provedAsserts int
+	outcome         string // "" running, ok, violation, infeasible, inconclusive
+	violation       *Violation
+	inconc          string
+	provedAsserts   int
 	concreteAsserts int
-	lastPos   string
+	lastPos         string
 }
 
 type inputSym struct {
@@ -186,6 +197,7 @@ func (w *Worker) ExploreInstance(fn *ssa.Function, params map[string]int, concre
 	t0 := time.Now()
 	res := &InstanceResult{Harness: fn.Name(), Params: params, Reached: map[string]int{}, Funcs: map[string]bool{}}
 	q0, st0, u0 := w.S.Queries, w.S.Time, w.S.Unknowns
+	fb0, fu0 := w.S.Fallbacks, w.S.FeasUnknown
 	if w.S.NumDefined() > 150000 || len(w.C.Terms) > 2000000 {
 		w.S.Restart()
 		w.C = sym.NewCtx()
@@ -276,6 +288,8 @@ func (w *Worker) ExploreInstance(fn *ssa.Function, params map[string]int, concre
 	res.Queries = w.S.Queries - q0
 	res.SolverTime = (w.S.Time - st0).Seconds()
 	res.Unknowns = w.S.Unknowns - u0
+	res.Fallbacks = w.S.Fallbacks - fb0
+	res.FeasUnknown = w.S.FeasUnknown - fu0
 	res.Wall = time.Since(t0).Seconds()
 	w.Stats.Paths += res.Paths
 	w.Stats.Steps += res.Steps
@@ -305,15 +319,15 @@ func shortSite(s string) string {
 func (w *Worker) runOnce(fn *ssa.Function, params map[string]int, concreteInputs map[string]uint64) (r *Run) {
 	r = &Run{
 		W: w, P: w.P, C: w.C,
-		globals:  map[*ssa.Global]*Value{},
-		inited:   map[*ssa.Package]bool{},
-		side:     map[any]any{},
-		params:   params,
-		tags:     map[string]string{},
-		reached:  map[string]int{},
-		funcs:    map[string]bool{},
-		evalMemo: map[*sym.Term]uint64{},
-		concrete: concreteInputs,
+		globals:      map[*ssa.Global]*Value{},
+		inited:       map[*ssa.Package]bool{},
+		side:         map[any]any{},
+		params:       params,
+		tags:         map[string]string{},
+		reached:      map[string]int{},
+		funcs:        map[string]bool{},
+		evalMemo:     map[*sym.Term]uint64{},
+		concrete:     concreteInputs,
 		concreteMode: concreteInputs != nil,
 	}
 	r.startRetained = w.retained
@@ -475,7 +489,7 @@ func (r *Run) Branch(c *sym.Term, site string) bool {
 		if mv == 0 {
 			other = c
 		}
-		res := w.S.CheckAssuming(other)
+		res, _ := w.S.CheckFeasible(other, nil)
 		if mv != 0 {
 			alts = append(alts, 1)
 			if res != sym.Unsat {
@@ -488,11 +502,11 @@ func (r *Run) Branch(c *sym.Term, site string) bool {
 			}
 		}
 	} else {
-		res, m := w.S.CheckAssumingModel(c, r.allSyms())
+		res, m := w.S.CheckFeasible(c, r.allSyms())
 		if res == sym.Unsat {
 			alts = []uint64{0}
 		} else {
-			res2 := w.S.CheckAssuming(notc)
+			res2, _ := w.S.CheckFeasible(notc, nil)
 			if res2 == sym.Unsat {
 				alts = []uint64{1}
 			} else {
